@@ -7,7 +7,7 @@ from ..core import Prop, Violation
 from ._coord import CoordMixin, Impl, gen_multi_kill
 
 FINDING = "C15-edges-dropped-on-progress"
-EXCUSABLE = {"exact_missed_deadlock", "exact_phantom_deadlock", "reported_members_really_wait"}
+EXCUSABLE = {"exact_missed_deadlock", "exact_phantom_deadlock", "reported_members_really_wait"}   # never: acquire_result_matches_lock, victim / handling clauses
 
 
 def has_cycle(edges):
@@ -39,8 +39,9 @@ class C15(CoordMixin, Prop):
     assumptions = [
         "an operation id is not started again while an operation with that id is still active; controller calls are "
         "made only for operations listed in active_operations; a resource id is registered once",
-        "reference wait-for relation: X waits for r iff X is active, X's last acquisition attempt on r returned "
-        "BLOCKED and X has not acquired r since; the holder is r's current owner",
+        "reference wait-for relation, read from the locks themselves: X waits for r iff X is active and X's last "
+        "request for r left ResourceLock.owner at somebody else (X has not become the owner since); the holder is r's "
+        "current owner; ctx.acquired_resources and the returned LockResult are not trusted",
         "deadlock_strategy is 'priority' or 'oldest' (the documented values) for the victim rule",
         "virtual clock as in C14; the 'oldest' rule compares the virtual creation times",
     ]
@@ -88,6 +89,17 @@ class C15(CoordMixin, Prop):
     def generate(self, rng, tier, n):
         for i in range(max(20, n // 40)):
             yield gen_multi_kill(rng)
+        # preemption, then the loser asks again for what it lost, then the winner asks for something the loser holds
+        for i in range(max(20, n // 40)):
+            pa, pb = rng.choice([(1, 5), (0, 1), (2, 3), (3, 3), (4, 2)])
+            lines = [self._cfg(rng), f"res 1 {rng.choice('1110')}", f"res 2 {rng.choice('0001')}", f"start 1 {pa}", f"start 2 {pb}"]
+            seq = ["acq 1 1", "acq 1 2", "acq 2 1", "acq 1 1", "acq 2 2"]
+            if rng.random() < 0.4:
+                seq.insert(rng.randrange(len(seq)), rng.choice(["acq 1 1", "rel 1 1", "acq 2 2", "deadlock", "start 3 4", "acq 3 1"]))
+            if rng.random() < 0.3:
+                seq[1], seq[2] = seq[2], seq[1]
+            lines += seq + ["deadlock", "watchdog", "deadlock", "acq 1 1", "acq 2 1", "deadlock"]
+            yield {"lines": lines, "note": "preempt and re-request"}
         # classic cycles without any trigger event: must be detected, attributed to nothing
         for i in range(max(10, n // 50)):
             k = rng.choice([2, 2, 3])
@@ -180,25 +192,38 @@ class C15(CoordMixin, Prop):
                 break                                   # id reuse: outside the quantifier
             if k in ("exec", "cell", "shutdown"):
                 trig_at = idx if trig_at is None else trig_at       # outside the fragment covered by c15_exact_partial
+            # ---- what an acquisition / release really did, read from the locks themselves (ResourceLock.owner), not from
+            #      the returned enum and not from ctx.acquired_resources ----
+            acq_done = acq_got = rel_done = False
+            if k == "acq" and len(t) == 3 and prev is not None and t[1] in prev["active"] and t[2] in st["locks"]:
+                acq_done = True
+                acq_got = st["locks"][t[2]]["owner"] == t[1]
+                res = info.get("result")
+                if res is not None and (res != "blocked") != acq_got:
+                    out.append(Violation("acquire_result_matches_lock",
+                                         f"result {res!r} iff op{t[1]} owns r{t[2]} afterwards",
+                                         f"owner afterwards = {st['locks'][t[2]]['owner']}", idx))
+            if k == "rel" and len(t) == 3 and prev is not None and info.get("result") is True:
+                rel_done = True
             # ---- trigger events of the known finding (reference level: pending waits and owners only) ----
-            if k == "acq" and info.get("result") in ("acquired", "reentrant", "preempted") and prev is not None:
+            if acq_done and acq_got:
                 X, r = t[1], t[2]
                 own_prev = {rr: l["owner"] for rr, l in prev["locks"].items()}
                 if any(z == X and rr != r for z, rr in pend) \
                         or any(z != X and own_prev.get(rr) == X for z, rr in pend) \
                         or any(z != X and rr == r for z, rr in pend):
                     trig_at = idx if trig_at is None else trig_at
-            if k == "rel" and info.get("result") is True:
+            if rel_done:
                 X = t[1]
                 own_post = {rr: l["owner"] for rr, l in st["locks"].items()}
                 if any(z == X for z, rr in pend) or any(z != X and own_post.get(rr) == X for z, rr in pend):
                     trig_at = idx if trig_at is None else trig_at
-            # ---- reference relation ----
-            if k == "acq" and "result" in info:
-                if info["result"] == "blocked":
-                    pend.add((t[1], t[2]))
-                else:
+            # ---- reference relation: X waits for r iff its last request for r left somebody else owning r ----
+            if acq_done:
+                if acq_got:
                     pend.discard((t[1], t[2]))
+                elif st["locks"][t[2]]["owner"] != "-":
+                    pend.add((t[1], t[2]))
             pend = {(z, rr) for z, rr in pend if z in st["active"]}
             owner = {rr: l["owner"] for rr, l in st["locks"].items()}
             ref = {(z, owner[rr], rr) for z, rr in pend if owner.get(rr, "-") not in ("-", z)}
